@@ -198,3 +198,45 @@ def c09_reference(tier="quick", seed=0):
                       f"/{b[0]}/{b[1]}.exec({b[2]!r}): engine {b[3]!r}, reference {b[4]!r}",
                       witness=(f"new RegExp({json.dumps(b[0])}, '{b[1]}').exec({json.dumps(b[2])})" if b else None), confirmed=True if b else None, domain=n))
     return out
+
+
+# /verif/spec_fixtures/regex_v8_2.json: systematic families (tools/gen_regex_fixtures2.py): quantified alternations with a
+# capturing look-around in one branch only; case-insensitive matching over characters with special case forms; counted
+# quantifiers over empty / assertion-only bodies.  Same recording, same replay.
+@groups.group(id="C09.bounded.reference-engine-2", prop="C09", kind="B", functions=["microjs.regex.parser", "microjs.regex.compiler", "microjs.regex.vm"])
+def c09_reference2(tier="quick", seed=0):
+    import multiprocessing as mp, os
+    path = os.path.join(os.path.dirname(os.path.dirname(os.path.abspath(__file__))), "spec_fixtures", "regex_v8_2.json")
+    cases = json.load(open(path))
+    cases = [c for c in cases if "u" not in c["f"]]          # the property covers the flags i, m, s
+    seen = set()
+    cases = [c for c in cases if (c["p"], c["f"]) not in seen and not seen.add((c["p"], c["f"]))]
+    if tier == "quick":
+        cases = [c for i, c in enumerate(cases) if i % 2 == seed % 2]
+    chunks = [cases[i::16] for i in range(16)]
+    with mp.get_context("fork").Pool(16) as pool:
+        rs = pool.map(_fixture_chunk, chunks)
+
+    def fam(c):
+        if any(ord(ch) > 127 for ch in c["p"]) or (c["f"].startswith("i")) or c["p"] in ("[a-z]", "[A-Z]", "\\w"):
+            return "case-forms"
+        if "(?=" in c["p"] or "(?<" in c["p"] or "(?!" in c["p"]:
+            return "lookaround-captures-in-loops" if "|" in c["p"] else "empty-bodies"
+        return "empty-bodies"
+    by = {}
+    keyof = {}
+    for c in cases:
+        k = fam(c)
+        keyof[(c["p"], c["f"])] = k
+        by.setdefault(k, [0, []])[0] += len(c["s"])
+    for n, bad in rs:
+        for p, f, s_, g, w in bad:
+            by[keyof[(p, f)]][1].append((p, f, s_, g, w))
+    out = []
+    for k, (n, bs) in sorted(by.items()):
+        b = bs[0] if bs else None
+        out.append(ob(f"C09.bounded.reference-engine-2.{k}", not bs, "B",
+                      f"{n} (pattern, subject) results equal the recorded reference results" if not bs else
+                      f"{len(bs)} of {n} differ, e.g. /{b[0]}/{b[1]}.exec({b[2]!r}): engine {b[3]!r}, reference {b[4]!r}",
+                      witness=(f"new RegExp({json.dumps(b[0])}, '{b[1]}').exec({json.dumps(b[2])})" if b else None), confirmed=True if b else None, domain=n))
+    return out
